@@ -142,20 +142,35 @@ func monitorVM(line string, rect image.Rectangle, cs []Call) (fails []Failure) {
 			fails = append(fails, Failure{"C04.no-panic", line, fmt.Sprint(p)})
 		}
 	}()
+	zp := &z
+	copyAt := -1
+	if len(line)%3 == 0 && len(cs) > 0 {
+		// from this call on, the first time the machine is between two paths
+		copyAt = (len(line) / 3) % len(cs)
+	}
 	for i, c := range cs {
 		if c.Name == "rast" {
 			rect = c.Rect
 			rec.Fresh()
-			z.SetRasterizer(rec, rect)
+			zp.SetRasterizer(rec, rect)
 			continue
 		}
 		if !c.IsDest() {
 			continue
 		}
+		if copyAt >= 0 && copyAt < i && !inPath {
+			copyAt = i
+		}
 		if p, isStart := m.step(c, rect.Dy()); isStart {
 			want, inPath, mark = p, true, len(rec.Log)
 		}
-		c.Apply(&z)
+		if !inPath && copyAt == i {
+			// a Renderer is a plain struct: a copy made between two paths carries on where the original was (round 5,
+			// C04-I: the flat-colour image wired to the colour field only once, so a copy painted with the original's colour)
+			cp := *zp
+			zp = &cp
+		}
+		c.Apply(zp)
 		if inPath && want == "" && len(rec.Log) != mark {
 			return append(fails, Failure{"C04.skipped-path-silent", line, fmt.Sprintf("call %d (%s): rasteriser activity %q in a path the VM skips", i, c.Name, rec.Log[len(rec.Log)-1])})
 		}
@@ -200,8 +215,8 @@ func monitorVM(line string, rect image.Rectangle, cs []Call) (fails []Failure) {
 			}
 			mark = len(rec.Log)
 		}
-		if z.CSel()&0x3f != m.csel || z.NSel()&0x3f != m.nsel {
-			return append(fails, Failure{"C04.selectors", line, fmt.Sprintf("after call %d: renderer selectors %d/%d, VM %d/%d", i, z.CSel(), z.NSel(), m.csel, m.nsel)})
+		if zp.CSel()&0x3f != m.csel || zp.NSel()&0x3f != m.nsel {
+			return append(fails, Failure{"C04.selectors", line, fmt.Sprintf("after call %d: renderer selectors %d/%d, VM %d/%d", i, zp.CSel(), zp.NSel(), m.csel, m.nsel)})
 		}
 	}
 	return
